@@ -386,6 +386,53 @@ def run(tier, seed):
     ck.cov['baseline_sign_lemmas'] = {'frozen': len(frozen), 'proved_now': len(proved_now), 'new_since_baseline': sorted(proved_now - frozen)[:40]}
     # real returns
     results = monitor(ck, H, summ, mayneg, rng, 90 if tier == 'quick' else 1500)
+    # non-vacuity: the federal balance theorem instantiated on the store of a real solved return of each year (a refund and an amount owed)
+    inst_files = []
+    enums = gen_forms.Enums(H['enum'])
+    for y in summ:
+        picked = {}
+        for (yy, r) in results:
+            if yy != y or not r['ok'] or r['exc'] is not None:
+                continue
+            v = r['solver']._v.values
+            if v.get('1040.33') is None:
+                continue
+            kind = 'refund' if (v.get('1040.34') or 0) > 0 else 'owed' if (v.get('1040.37') or 0) > 0 else None
+            if kind and sum(1 for k_ in picked if k_.startswith(kind)) < 3:
+                picked['%s%d' % (kind, sum(1 for k_ in picked if k_.startswith(kind)))] = r
+        for kind, r in picked.items():
+            s = r['solver']
+            try:
+                vals_txt = gen_forms.clist(['(%s, %s)' % (gen_forms.cstr(k), catalog.pv_of(v, enums)) for k, v in s._v.values.items() if k.startswith('1040.')])
+                cfgp = r['store'].config
+                inps = []
+                for opt in cfgp.options('1040'):
+                    spec = s._input_map.get('1040.%s' % opt)
+                    raw = cfgp.get('1040', opt)
+                    if spec is not None and spec.valid(raw):
+                        inps.append('(%s, %s)' % (gen_forms.cstr('1040.%s' % opt), catalog.pv_of(spec.value(raw), enums)))
+                if not any('"1040.apply_to_estimated_tax"' in x for x in inps):
+                    # the input is not read when there is no overpayment; the theorem's store has to hold a number for every name line 36 mentions
+                    inps.append('("1040.apply_to_estimated_tax", PNum 0)')
+                text = c15asm.instance_file(HEAD % {'y': y, 'mayneg': '[]'}, y, vals_txt, gen_forms.clist(inps),
+                                            gen_forms.clist([gen_forms.cstr(x) for x in s.forms.keys()]))
+            except Exception as e:  # noqa
+                ck.notes.append('could not export a real return for the instance of %d: %r' % (y, e))
+                continue
+            inst_files.append((y, kind, ck.write_gen('C15_instance_%d_%s.v' % (y, kind), text)))
+    res5 = ck.coqc_many([f for _, _, f in inst_files], timeout=900)
+    # a demonstration, not the property: up to three candidate returns per year and kind, one has to go through
+    shown = {}
+    for y, kind, f in inst_files:
+        ok, out = res5[f]
+        k2 = (y, kind.rstrip('0123456789'))
+        shown[k2] = shown.get(k2, False) or ok
+        if not ok:
+            ck.notes.append('instance %d %s did not go through: %s' % (y, kind, out[-160:].replace('\n', ' ')))
+    for (y, k2), ok in sorted(shown.items()):
+        if ok:
+            ck.oblige('C15_fed_balance_%d holds its hypotheses on a real return (%s)' % (y, k2), True)
+    ck.cov['theorem_instances_on_real_returns'] = {'%d:%s' % k_: v_ for k_, v_ in shown.items()}
     for y, kind, name in broken:
         key = 'C15:%d:%s.balance' % (y, '1040' if kind == 'fed' else 'nc_d-400')
         if not any(v['key'] == key for v in ck.violations):
